@@ -129,6 +129,25 @@ class Registry:
         self.types.declare(name, t)
         return t
 
+    def dictlike(self, name, fields):
+        """a python dict with a fixed set of constant string keys, modelled as an (immutable, encodable) record so that
+        it can live in lists/maps.  A key declared as "k?" may be absent (encoded as Optional: none = absent; a present
+        key with value None is outside the model): d[k] raises KeyError, d.get(k[, dflt]) yields None/dflt, `k in d`
+        is false.  Other keys are always present.  Mutation of such a dict is unsupported."""
+        fs, opt = {}, set()
+        for k, v in fields.items():
+            t = self.types.parse(v)
+            if k.endswith("?"):
+                k = k[:-1]
+                opt.add(k)
+                t = TOpt(t)
+            fs[k] = t
+        t = TRec(name, fs, None)
+        t.dictlike = True
+        t.optkeys = opt
+        self.types.declare(name, t)
+        return t
+
     def objtype(self, name, fields, cls=None):
         fs = {}
         for k, v in fields.items():
@@ -854,6 +873,9 @@ def region_body(c, mod, node):
     the source as it is on disk now: a vanished anchor is an error, never a silent pass."""
     if not c.region:
         return node.body
+    cached = getattr(c, "_region_cache", None)
+    if cached is not None and cached[0] is node:
+        return cached[1]
     first, last = c.region
     hits = []
 
@@ -876,6 +898,7 @@ def region_body(c, mod, node):
     walk(node)
     if len(hits) != 1:
         raise Unsupported("region anchors %r .. %r match %d statement ranges in %s" % (first, last, len(hits), c.key))
+    c._region_cache = (node, hits[0])
     return hits[0]
 
 
